@@ -115,6 +115,8 @@ def _section(p):
 def run_params(rng, klen):
     w = rng.choice(WORKERS)
     workers = klen + 3 if w == "klen+3" else w
+    if rng.random() < 0.12:
+        workers = rng.randint(1, max(4, min(2 * klen, 40)))  # any other count (the property says "any number")
     r = rng.random()
     if klen >= 50:
         threshold = None if r < 0.85 else klen  # boundary: klen >= threshold is still parallel
